@@ -6,10 +6,10 @@ ROOT = os.path.dirname(os.path.dirname(os.path.abspath(__file__)))
 
 CHECKS = {
  "C08": dict(cat="exploration", tech="panic/fatal-error monitor over child processes, logical step counter (Go coverage counters) on scaled families, error-reporting consistency monitor",
-   text="Every entry point on 10^5-10^6 hostile byte inputs and degenerate protobuf models in child processes (panics recovered, fatal errors attributed through a logged index); logical work of single calls measured as executed basic blocks on ~100 (quick) / ~650 (thorough) scaled families and random mutants against a quadratic budget and a growth-exponent bound; parser error listener vs. returned error on every DSL input.",
+   text="Every entry point on 10^5-10^6 hostile byte inputs, cooperating module file sets and degenerate protobuf models in child processes (panics recovered, fatal errors attributed through a logged index); logical work of single calls measured as executed basic blocks on ~100 (quick) / ~700 (thorough) scaled families and random mutants against a quadratic budget, a sustained growth-exponent bound and two hang criteria; parser error listener vs. returned error on every DSL input.",
    note="Work bound holds for the families and sizes measured only; 'never hangs' is decided as 'no call exceeded 50x its quadratic step budget'; K1, K5 recognised by family.", ref="5/C08"),
  "C13": dict(cat="exploration", tech="input-snapshot monitor, Go race detector on barrier-started mixed workloads with sequential baseline, cold-vs-warm subprocess histories",
-   text="Deep snapshots around every model/file-slice entry point; go test -race over rounds of 12 goroutines on shared inputs (6 mixes) with result comparison and overlap counting; per-probe result hashes equal across cold, warmed, reversed and history-prefixed processes.",
+   text="Deep snapshots around every model/file-slice entry point; object-reuse sequences (one builder value, one model edited in place, earlier errors re-inspected, failing calls in between) compared with fresh objects; go test -race over rounds of 12-16 goroutines on shared inputs (10 mixes incl. shared builder, non-module files, renders after failed calls) with result comparison and overlap counting; per-probe result hashes equal across cold, warmed, reversed, look-alike and history-prefixed processes.",
    note="The race detector only sees interleavings that happened (overlapping pairs are reported in evidence); histories are sampled.", ref="5/C13"),
  "C15": dict(cat="exploration", tech="path-safety predicate + must-accept/must-reject classes over exhaustive and styled manifests with writer-recorded positions",
    text="Every string over the 15-letter alphabet up to length 5 (quick) / 6 (thorough), with and without suffix, plus styled multi-entry manifests; safety of every returned path, error counts, verbatim/order, and positions are checked.",
@@ -21,8 +21,8 @@ CHECKS = {
    text="All strings up to length 3 over 16 representatives plus length 4 over 9 classes (quick) / length 5 (thorough), boundary lengths around every limit, random Unicode, through all 9 validators and the predicate (soundness and completeness); rule strings compared with the JS and Java sources.",
    note="'identical to JS and Java' is decided on the rule strings as artefacts; JS/Java are not executed (cannot be built offline).", ref="5/C18"),
  "C19": dict(cat="translation_validation", tech="artefact conformance (ATN arrays, vocabularies, listener method set) + Earley recogniser on the .g4 vs. the real generated parser on generated and grammar-derived texts",
-   text="Serialized ATNs of Go/JS/Java/.interp decoded and compared and deserialized; name tables compared with each other, the live recogniser and both .g4 files; for 10^4-10^5 texts incl. one shortest sentence per grammar production: grammar accepts <=> generated parser accepts.",
-   note="Trusted: .g4 reader and Earley recogniser (internal/g4); lexer-only grammar edits that keep all names and literals are out of reach (DESIGN 8).", ref="5/C19"),
+   text="Serialized ATNs of Go/JS/Java/.interp decoded and compared and deserialized; sequences of state and prediction-decision numbers in the three generated parser sources compared; name tables compared with each other, the live recogniser and both .g4 files; every literal of the literal-only lexer rules lexed by the real lexer; for 10^4-10^5 texts incl. one shortest sentence per grammar production: grammar accepts <=> generated parser accepts.",
+   note="Trusted: .g4 reader and Earley recogniser (internal/g4); lexer grammar edits of character-class rules that keep all names are out of reach (DESIGN 8).", ref="5/C19"),
  "C01": dict(cat="exploration", tech="round-trip monitor d->M1->D1->M2->D2->M3->D3 on both API paths over generated, corpus and mutated DSL",
    text="Every accepted full-model text among 10^4-10^6 generated layouts, corpus files and accepted token-level mutants is pushed through render/parse three times on the in-memory and the JSON-string path; equality and byte stability are asserted on each.",
    note="Trusted: proto.Equal; reading of 'modulo surrounding/trailing whitespace' in DESIGN 7-a.", ref="5/C01"),
@@ -48,7 +48,7 @@ CHECKS = {
    text="Bounds of every position in every error for 10^4-10^5 rejected inputs; exact position for 5 injection kinds under random layouts; merge-conflict file+line against the set of declaration sites, deviations equal to the naive lookup counted as known finding K2.",
    note="Trusted: renderer marks; K2 signature = reported line equals first-prefix-match lookup.", ref="5/C16"),
  "C04": dict(cat="exploration", tech="reference-model monitor (fixpoint reach sets + longest walk) over real Build, repeated and under hook-enumerated start orders",
-   text="Every node and edge weight map of every accepted build is compared with an independent reference model on 10^4-10^5 generated models x (repeated builds + enumerated depth-first start orders); held on what was observed, not a proof.",
+   text="Every node and edge weight map of every accepted build (also after a second AssignWeights) is compared with an independent reference model on 10^4-10^5 generated models x (repeated builds + enumerated depth-first start orders); weight keys are compared with the reach sets even when the builder wrongly accepts; held on what was observed, not a proof.",
    note="Trusted: reference model internal/ref/wgraph.go (~400 lines), generator constraints of DESIGN 7-b; hook VerifAssignWeightsInOrder repeats ~25 lines of AssignWeights (fidelity guarded, DESIGN 4).", ref="5/C04"),
  "C05": dict(cat="exploration", tech="verdict monitor vs. well-foundedness predicate under enumerated depth-first start orders (hook) and sampled map orders",
    text="Accept/reject verdict and error class of real Build and of every enumerated start order compared with the reference predicate on generated models with planted cycle hazards; exhaustive over start orders for models with <= 5 (quick) / 6 (thorough) non-terminal nodes.",
